@@ -174,6 +174,7 @@ def main():
     # ---------------- violations: dedupe, replay natively, classify
     known = [k for k in load_known() if k.get('property') == prop]
     groups = {}
+    unreplayable = [v for v in violations if v['case'] is None]
     for v in violations:
         if v['case'] is None:
             continue
@@ -215,7 +216,7 @@ def main():
     status = 0
     if confirmed:
         status = 1
-    if unsupported or mismatches or unreproduced or incomplete:
+    if unsupported or mismatches or unreproduced or incomplete or unreplayable:
         status = 2 if not confirmed else 1
     if total.completed == 0 and not confirmed:
         status = 2
@@ -251,6 +252,7 @@ def main():
             'model_native_mismatches': mismatches[:5], 'unsupported': [u[1] for u in unsupported[:3]],
             'unreproduced_counterexamples': unreproduced[:5], 'incomplete_spaces': incomplete[:5],
             'cross_engine': cross[1] if cross else None,
+            'kernel_counterexamples': [{'clause': v['clause'], 'msg': v['msg']} for v in unreplayable[:5]],
         },
         'assumptions': H.assumptions(),
     }
@@ -276,6 +278,14 @@ def main():
         print('INCONCLUSIVE property=%s reason=counterexample did not reproduce natively (%d)' % (prop, len(unreproduced)))
         for u in unreproduced[:3]:
             log(json.dumps(u, default=str)[:1500])
+    if unreplayable:
+        # kernel-mode (abstract pre-state) counterexamples cannot be replayed natively: they only count when the
+        # bounded runs reproduce them; alone they make the run inconclusive
+        kinds = sorted({v['clause'] for v in unreplayable})
+        print('%s property=%s reason=kernel-mode counterexample(s) without native replay: %s' %
+              ('NOTE' if confirmed else 'INCONCLUSIVE', prop, ', '.join(kinds)))
+        for v in unreplayable[:3]:
+            log('kernel counterexample: %s: %s' % (v['clause'], v['msg']))
     if incomplete:
         print('INCONCLUSIVE property=%s reason=deadline: %d spaces unfinished' % (prop, len(incomplete)))
     if cross_problem:
